@@ -820,4 +820,147 @@ def ctxEventObj (d : Def) (e : EType) (data : Data) (o : Obj δ Du κ α ε (Opt
    | .raise x => .error (excName x)
    | _ => .error "?")
 
+/-! ### `__init__`: sorting the keyword arguments by prefix -/
+
+/-- one keyword argument against the rows of `_ct_prefixes`, in order; EVERY row whose prefix matches counts
+    (there is no `break`); the rest of the name must be in the container the row refers to -/
+def sortArg (p : Prims δ Du κ α ε χ η) (valid : TableRef → String → Bool) (arg : String) :
+    List (String × List (String × String)) → List (String × Nat × TableRef) →
+      Except PyExc (List (String × List (String × String)))
+  | dd, [] => .ok dd
+  | dd, (pre, len, ref) :: rest =>
+    if p.startsWith arg pre then
+      if valid ref (p.dropPrefix arg len) then
+        sortArg p valid arg (ddappend dd pre (p.dropPrefix arg len, arg)) rest
+      else .error "TypeError"
+    else sortArg p valid arg dd rest
+
+/-- all keyword arguments, in the order of `kwargs` -/
+def sortArgs (p : Prims δ Du κ α ε χ η) (valid : TableRef → String → Bool)
+    (rows : List (String × Nat × TableRef)) :
+    List (String × List (String × String)) → List String → Except PyExc (List (String × List (String × String)))
+  | dd, [] => .ok dd
+  | dd, arg :: rest =>
+    match sortArg p valid arg dd rows with
+    | .ok dd' => sortArgs p valid rows dd' rest
+    | .error x => .error x
+
+/-- the body of the inner loop of `__init__` -/
+abbrev kwRow (p : Prims δ Du κ α ε χ η) (arg : String) :
+    (String × Nat × TableRef) → M (Obj δ Du κ α ε χ) Unit Unit :=
+  fun (v2, v3, v4) =>
+    Gen.TrFT.seq (fun o => if p.startsWith arg v2 then (Gen.TrFT.bind (gets fun o => (p.dropPrefix arg v3)) fun v5 =>
+      Gen.TrFT.seq (fun o => if !(refContains o v4 v5) then (Gen.TrFT.bind (gets fun o => ("…")) fun v6 =>
+      Gen.TrFT.raise "TypeError") o else (Gen.TrFT.skip) o)
+      (Gen.TrFT.seq (modify fun o => { o with tmpDD := ddappend o.tmpDD v2 (v5, arg) })
+      (Gen.TrFT.skip))) o else (Gen.TrFT.skip) o)
+      (Gen.TrFT.skip)
+
+theorem refContains_tmpDD (o : Obj δ Du κ α ε χ) (dd : List (String × List (String × String)))
+    (r : TableRef) (n : String) : refContains { o with tmpDD := dd } r n = refContains o r n := by
+  cases r <;> rfl
+
+theorem sortArg_spec (p : Prims δ Du κ α ε χ η) (arg : String) (o : Obj δ Du κ α ε χ)
+    (rows : List (String × Nat × TableRef)) (dd : List (String × List (String × String))) :
+    match sortArg p (refContains o) arg dd rows with
+    | .ok dd' => forEach rows (kwRow p arg) { o with tmpDD := dd } = ({ o with tmpDD := dd' }, .next ())
+    | .error _ => (forEach rows (kwRow p arg) { o with tmpDD := dd }).2 = .raise "TypeError" := by
+  induction rows generalizing dd with
+  | nil => simp [sortArg, forEach, Gen.TrFT.pure]
+  | cons row rest ih =>
+    obtain ⟨pre, len, ref⟩ := row
+    simp only [sortArg, forEach]
+    by_cases hs : p.startsWith arg pre = true
+    · by_cases hv : refContains o ref (p.dropPrefix arg len) = true
+      · have hstep : kwRow p arg (pre, len, ref) { o with tmpDD := dd } =
+            ({ o with tmpDD := ddappend dd pre (p.dropPrefix arg len, arg) }, .next ()) := by
+          ftsimp [kwRow, hs, hv, refContains_tmpDD]
+        simp only [hs, hv, if_true, hstep]
+        exact ih _
+      · have hv' : refContains o ref (p.dropPrefix arg len) = false := by simpa using hv
+        have hstep : kwRow p arg (pre, len, ref) { o with tmpDD := dd } =
+            ({ o with tmpDD := dd }, .raise "TypeError") := by
+          ftsimp [kwRow, hs, hv', refContains_tmpDD]
+        simp only [hs, hv', if_true, hstep, Bool.false_eq_true, if_false]
+    · have hs' : p.startsWith arg pre = false := by simpa using hs
+      have hstep : kwRow p arg (pre, len, ref) { o with tmpDD := dd } = ({ o with tmpDD := dd }, .next ()) := by
+        ftsimp [kwRow, hs']
+      simp only [hs', Bool.false_eq_true, if_false, hstep]
+      exact ih _
+
+theorem initLoop0_eq (p : Prims δ Du κ α ε χ η) (n : Option κ) (arg : String) (o : Obj δ Du κ α ε χ) :
+    initLoop0 p n arg o =
+      Gen.TrFT.seq (forEach o.ctPrefixes (kwRow p arg)) Gen.TrFT.skip o := by
+  unfold initLoop0
+  rfl
+
+/-- the first loop of `__init__` sorts the keyword arguments as `sortArgs` says, or raises TypeError at the
+    first keyword with a known prefix and an unknown rest -/
+theorem sortArgs_spec (p : Prims δ Du κ α ε χ η) (n : Option κ) (o : Obj δ Du κ α ε χ)
+    (args : List String) (dd : List (String × List (String × String))) :
+    match sortArgs p (refContains o) o.ctPrefixes dd args with
+    | .ok dd' => forEach args (initLoop0 p n) { o with tmpDD := dd } = ({ o with tmpDD := dd' }, .next ())
+    | .error _ => (forEach args (initLoop0 p n) { o with tmpDD := dd }).2 = .raise "TypeError" := by
+  induction args generalizing dd with
+  | nil => simp [sortArgs, forEach, Gen.TrFT.pure]
+  | cons arg rest ih =>
+    simp only [sortArgs, forEach]
+    have h1 := sortArg_spec p arg o o.ctPrefixes dd
+    rw [initLoop0_eq]
+    cases hsa : sortArg p (refContains o) arg dd o.ctPrefixes with
+    | error x =>
+      rw [hsa] at h1
+      simp only at h1 ⊢
+      rcases hf : forEach o.ctPrefixes (kwRow p arg) { o with tmpDD := dd } with ⟨o1, fl⟩
+      rw [hf] at h1
+      simp only at h1
+      subst h1
+      have : Gen.TrFT.seq (forEach ({ o with tmpDD := dd } : Obj δ Du κ α ε χ).ctPrefixes (kwRow p arg))
+          Gen.TrFT.skip { o with tmpDD := dd } = (o1, .raise "TypeError") := seq_raise hf
+      rw [this]
+    | ok dd' =>
+      rw [hsa] at h1
+      simp only at h1 ⊢
+      have : Gen.TrFT.seq (forEach ({ o with tmpDD := dd } : Obj δ Du κ α ε χ).ctPrefixes (kwRow p arg))
+          Gen.TrFT.skip { o with tmpDD := dd } = ({ o with tmpDD := dd' }, .next ()) := by
+        rw [seq_next h1]; rfl
+      rw [this]
+      exact ih dd'
+
+/-- `__init__` of a block created without any `t_ / cond_ / enter_ / exit_ / on_enter_ / on_exit_` keyword: the
+    instance shares the class's durations (no copy), has empty callback and event tables, the on_notrans events
+    given, no state (UNDEF), no timer, no event in progress, no pending request, empty `sdata`; `initdef`
+    defaults to `_ct_default_state`; all keyword arguments go on to `super().__init__` -- in this order -/
+theorem init_plain_spec (p : Prims δ Du κ α ε χ η) (n : Option κ) (o : Obj δ Du κ α ε χ)
+    (dd : List (String × List (String × String))) (evs : List ε)
+    (hT : o.typeIsFSM = false)
+    (hdd : sortArgs p (refContains o) o.ctPrefixes [] (o.kwargs.map (·.1)) = .ok dd)
+    (hnone : ∀ k, ddget dd k = []) (hev : p.eventTuple n = .ok evs) :
+    Gen.TrFT.init p n o =
+      ({ o with
+          tmpDD := dd
+          duration := DurRef.shared
+          fsmFunctions := [("cond", []), ("enter", []), ("exit", [])]
+          stateEvents := [("on_enter", []), ("on_exit", [])]
+          onNotrans := evs
+          state := none
+          activeTimerNone := true
+          timersEnabled := false
+          fsmEventActive := false
+          nextEventNone := true
+          sdata := []
+          initdefDefault := (if dhas o.kwargs "initdef" then o.initdefDefault else some o.ctDefaultState)
+          calls := (o.calls ++ [Call.superInit o.kwargs
+            (if dhas o.kwargs "initdef" then o.initdefDefault else some o.ctDefaultState)]) },
+        .next ()) := by
+  unfold Gen.TrFT.init
+  rw [seq_next (o' := o) (by simp [hT, Gen.TrFT.skip, Gen.TrFT.pure])]
+  rw [seq_next (o' := { o with tmpDD := [] }) (by rfl)]
+  have hl := sortArgs_spec p n o (o.kwargs.map (·.1)) []
+  rw [hdd] at hl
+  simp only at hl
+  rw [seq_loop_next (o' := { o with tmpDD := dd }) hl]
+  by_cases hk : dhas o.kwargs "initdef" = true <;>
+    ftsimp [hnone, forMapM, dofPairs, hev, superInit, kwSetdefaultInitdef, hk]
+
 end Edzed.TrTie.FT
